@@ -31,7 +31,13 @@ type Loaded struct {
 	tags           string
 }
 
-const repoDir = "/repo"
+// repoDir is the tree under verification: /repo, or (for regression runs of the seeded changes against scratch worktrees) $VERIF_REPO.
+var repoDir = func() string {
+	if d := os.Getenv("VERIF_REPO"); d != "" {
+		return d
+	}
+	return "/repo"
+}()
 
 func harnessDir() string {
 	if d := os.Getenv("VERIF_HARNESS_DIR"); d != "" {
